@@ -79,16 +79,18 @@ class RealRegistry(object):
         """dispatch of content of type `real` shaped for version v; returns class tag, -1 if unknown"""
         import stix2
         uid = "11111111-1111-4111-8111-111111111111"
+        as_object = real in self.maps[v]["objects"]
+        as_observable = (not as_object) and real in self.maps[v]["observables"]
+        ts = {"created": "2020-01-01T00:00:00.000Z", "modified": "2020-01-01T00:00:00.000Z"}
         if real == "identity":
-            d = {"type": "identity", "id": "identity--" + uid, "created": "2020-01-01T00:00:00.000Z", "modified": "2020-01-01T00:00:00.000Z",
-                 "name": "n", "identity_class": "individual"}
-        elif real == "file" or (real in self.maps[v]["observables"] and real not in self.maps[v]["objects"]):
+            d = dict({"type": "identity", "id": "identity--" + uid, "name": "n", "identity_class": "individual"}, **ts)
+        elif as_observable:
             d = {"type": real}
             d["name" if real == "file" else "prop1"] = "x"
             if v == "2.1":
                 d["id"] = real + "--" + uid
         else:
-            d = {"type": real, "id": real + "--" + uid, "created": "2020-01-01T00:00:00.000Z", "modified": "2020-01-01T00:00:00.000Z", "prop1": "x"}
+            d = dict({"type": real, "id": real + "--" + uid, "prop1": "x"}, **ts)
         if v == "2.1":
             d["spec_version"] = "2.1"
         try:
